@@ -6,7 +6,7 @@
    (key, cell) entries; [ord] is Go's map iteration order per round (any permutation); [breaker] the optional tie-breaker
    (any function). *)
 From Coq Require Import List ZArith Bool Permutation Sorted.
-From V Require Import Model.Dp Model.Clique Proofs.DpKnapsack Proofs.DpSolvers Proofs.DpBest Proofs.DpJudge Proofs.DpPool.
+From V Require Import Model.Dp Model.Clique Proofs.DpKnapsack Proofs.DpSolvers Proofs.DpBest Proofs.DpJudge Proofs.DpPool Proofs.CliqueBK.
 Import ListNotations.
 Local Open Scope Z_scope.
 
@@ -90,3 +90,24 @@ Theorem c18_hsolve_erase : forall brk grow maxV allow ord pord,
   (herase (s_heap st) (s_dp st), s_ovf st) = solve brk maxV allow ord' vals n.
 Proof. exact hsolve_erase. Qed.
 Print Assumptions c18_hsolve_erase.
+
+(* ---- GetMaximalCliques (Bron–Kerbosch without pivot; Model/Clique.v) ---- *)
+(* the top-level call passes X = P[:0], which shares P's backing array: `X = append(X, v)` overwrites slot k of that
+   array with the value just read from it, so the call behaves like the recursion on separate lists *)
+Theorem c18_top_alias_harmless : forall g order, max_cliques g order = bk g (S (length order)) [] order [].
+Proof. exact top_alias_harmless. Qed.
+Print Assumptions c18_top_alias_harmless.
+(* termination: on a graph without self-loops the recursion depth never exceeds |P|+1 *)
+Theorem c18_bk_fuel : forall g, irrefl g -> forall fuel R P X, (length P < fuel)%nat -> bk g fuel R P X <> None.
+Proof. exact bk_fuel. Qed.
+Print Assumptions c18_bk_fuel.
+(* exactness: on a simple undirected graph with vertices 0..n-1, for every order in which the map iteration hands out
+   the vertices, every reported list is duplicate-free and a maximal clique, every maximal clique is reported, and no two
+   reported lists are the same vertex set *)
+Theorem c18_bron_kerbosch_exact : forall g n, sym g -> irrefl g -> forall order, Permutation order (seq 0 n) ->
+  exists cs, max_cliques g order = Some cs /\
+    (forall c, In c cs -> NoDup c /\ maxcliqueP g n c) /\
+    (forall C, maxcliqueP g n C -> exists c, In c cs /\ same c C) /\
+    nodupS cs.
+Proof. exact bron_kerbosch_exact. Qed.
+Print Assumptions c18_bron_kerbosch_exact.
